@@ -527,11 +527,16 @@ def handleMh (m : MhState) (op impl : List String) : MhState × String × List S
     if (m.handles.lookup k).isSome then (m, "err already", []) else
     let ro := optBool opts "ro"
     let fl := optBool opts "fail"
+    let torn := optInt opts "fail" 0 == 2      -- read-only Open with Recover on a torn head log
     let (l', r) := lockStep rel m.lock (if ro then .openRO fl else .openRW fl)
     match r with
     | .ok => ({ m with lock := l', handles := (k, ro) :: m.handles }, "ok", [])
     | .locked => ({ m with lock := l' }, "err locked", [])
-    | .failed => ({ m with lock := l' }, "err indexcorrupt", [])
+    | .failed =>
+      if torn then
+        -- a read-only handle never changes any log file, whatever it is asked to do
+        ({ m with lock := l' }, "err logcorrupt same", viol (impl.getLast? != some "changed") "ReadonlyNeverWrites")
+      else ({ m with lock := l' }, "err indexcorrupt", [])
     | .noHandle => (m, "bad-op", [])
   | ["mh.close", k] =>
     match m.handles.lookup k with
